@@ -607,3 +607,33 @@ fn reload_equals_graph(yaml: &str, cfg: &Cfg) -> String {
 
 #[allow(dead_code)]
 fn unused(_: HashMap<u8, u8>, _: Inst, _: &dyn HasIdentity) {}
+
+/// lsp <k> name1 text1 ... : the library entry point `RVParser::run` with the in-memory reader of the
+/// editor integration (documents addressed by `file:///w/<name>` URIs; first document = base)
+pub fn op_lsp(p: &[&str], out: &mut Vec<String>) {
+    use riscv_analysis::parser::RVDocument;
+    use riscv_analysis::passes::DiagnosticItem;
+    use riscv_analysis_lsp::VerifLSPFileReader;
+    let (files, _) = parse_files(&p[1..]);
+    let docs: Vec<RVDocument> = files
+        .iter()
+        .map(|(n, t)| RVDocument { uri: format!("file:///w/{n}"), text: t.clone() })
+        .collect();
+    let base = docs[0].uri.clone();
+    let mut parser = RVParser::new(VerifLSPFileReader::new(docs));
+    let diags: Vec<DiagnosticItem> = parser.run(&base);
+    for d in &diags {
+        let name = parser
+            .reader
+            .get_filename(d.file)
+            .map(|u| u.trim_start_matches("file:///w/").to_string())
+            .unwrap_or_else(|| "nil".to_string());
+        out.push(format!(
+            "LSP sev={} title={} at={} file={}",
+            sev(&d.level),
+            hex(&d.title),
+            range_str(&d.range),
+            hex(&name)
+        ));
+    }
+}
